@@ -20,17 +20,11 @@ Notation "r >>= f" := (bindR r f) (at level 50, left associativity).
 Definition guard (b : bool) (x : exn) (s : state) (k : state -> R) : R :=
   if b then k s else raise s x.
 
-(* EdifNamespace._check_EDIF_identifier (ASCII; Python's [$] also matches before a final newline) *)
+(* EdifNamespace._check_EDIF_identifier (ASCII) *)
 Definition is_idchar (c : N) : bool := is_alnum c || N.eqb c 95.
 
-Definition strip_final_nl (s : str) : str :=
-  match rev s with
-  | c :: r => if N.eqb c 10 then rev r else s
-  | [] => s
-  end.
-
 Definition all_idchars_nonempty (s : str) : bool :=
-  match strip_final_nl s with
+  match s with
   | [] => false
   | t => forallb is_idchar t
   end.
